@@ -44,6 +44,10 @@ def attribute(ev, cl, tags, trace):
     kind = trace.get("kind", "")
     if kind == "userfcn":
         return {"C17"}
+    if kind == "expr" and op in FILL_OPS + ("Pickle", "New"):
+        # aggregators whose quantities are string expressions / their equivalent functions: what they aggregate
+        # is C17's claim (and C11's for the pickle clone)
+        return {"C17"} | ({"C11"} if op == "Pickle" else set())
     if cl == "budget":
         return set()
     if cl == "wf":
@@ -70,7 +74,8 @@ def attribute(ev, cl, tags, trace):
     if op in FILL_OPS:
         faulty = bool(ev["x"].get("fa"))
         if cl in ("state", "sem", "shape"):
-            return {"C02"} | lineage
+            # in a stream with failing records the aggregate of the surviving records is C12's claim as well
+            return {"C02"} | lineage | ({"C12"} if kind == "failing" else set())
         if cl == "outcome":
             if silent:
                 return {"C16"} if kind == "shared" else {"C12"}
